@@ -136,6 +136,10 @@ package logqlmetric
 //@   ensures[window-end]   ret0 ==> fw_called && fw_a1 == st_r0.Add(-old(i.offset))
 //@   ensures[window-start] ret0 ==> fw_called && fw_a0 == st_r0.Add(-old(i.offset)).Add(-old(i.interval))
 //@   ensures[stamp-is-evaluation-time] ret0 ==> r.Timestamp == otelstorage.NewTimestampFromTime(st_r0)
+//@   capture sk = call(sortedKeys, 0)
+//@   ensures[series-emitted-in-key-order] ret0 ==> sk_called && same(sk_a0, i.window)
+//@   loop 0 invariant rangeindex+1 <= len(sk_r0)
+//@   loop 0 body_ensures[one-sample-per-key-in-that-order] len(r.Samples) == head(len(r.Samples)) + 1 && same(r.Samples[len(r.Samples)-1].Set, i.window[sk_r0[rangeindex]].Set)
 
 // ---- C12: binary operations
 
@@ -310,6 +314,9 @@ package logqlmetric
 //@   loop 0 body_ensures[existing-group-kept] head(has(result, k_r0)) ==> result[k_r0] == head(result[k_r0])
 //@   loop 1 modifies r.Samples, r.Samples[*]
 //@   loop 1 body_ensures[one-sample-per-group] len(r.Samples) == head(len(r.Samples))+1 && same(r.Samples[len(r.Samples)-1].Set, g.metric) && same(r.Samples[len(r.Samples)-1].Data, g.agg.Result())
+//@   capture sk = call(sortedKeys, 0)
+//@   ensures[groups-emitted-in-key-order] ret0 ==> sk_called && same(sk_a0, result)
+//@   loop 1 body_ensures[group-of-the-current-key] g == result[sk_r0[rangeindex]]
 
 // ---- C14: resource accounting
 
@@ -458,6 +465,8 @@ package logqlmetric
 //@   modifies *
 //@   ensures[ends-with-source] nx_called && ret0 == nx_r0
 //@   ensures[timestamp-passed-on] ret0 ==> r.Timestamp == step.Timestamp
+//@   capture sk = call(sortedKeys, 0)
+//@   ensures[groups-emitted-in-key-order] ret0 && i.limit != 0 ==> sk_called && same(sk_a0, result)
 //@   loop 0 modifies *
 //@   loop 0 invariant result != nil && i.limit != 0 && r.Timestamp == step.Timestamp
 //@   loop 1 invariant r.Timestamp == step.Timestamp
@@ -557,7 +566,10 @@ package logqlmetric
 
 //@ lemma[C18.max-independent-of-sample-order] sameNumber(maxStep(maxStep(anyF(0), anyB(0), anyF(1)), true, anyF(2)), maxStep(maxStep(anyF(0), anyB(0), anyF(2)), true, anyF(1)))
 //@ lemma[C18.min-independent-of-sample-order] sameNumber(minStep(minStep(anyF(0), anyB(0), anyF(1)), true, anyF(2)), minStep(minStep(anyF(0), anyB(0), anyF(2)), true, anyF(1)))
-//@ lemma[C18.sum-independent-of-sample-order] sameNumber((anyF(0) + anyF(1)) + anyF(2), (anyF(0) + anyF(2)) + anyF(1))
+// (A lemma "sum is independent of sample order" used to stand here. It is false for floating point
+// - the defect it exposed - and not what the property needs: with series emitted in key order
+// (sortedKeys) the order samples arrive in is a function of the data, which is what makes a sum
+// repeatable.)
 
 // ---- C12: vector(c) yields, at every grid step, one sample with the constant and no labels,
 // written into the caller's step (the iterator keeps nothing of what it hands out).
@@ -614,3 +626,14 @@ package logqlmetric
 //@   modifies nothing
 //@ iface AggregatedLabels.AsLokiAPI
 //@   modifies nothing
+
+// ---- C18: series are emitted in ascending key order, so what is computed from them downstream
+// (a floating-point sum, say) does not depend on hash-map iteration order.
+//@ scope labels.go
+//@ func sortedKeys
+//@   capture so = call(slices.Sort, 0)
+//@   modifies nothing
+//@   ensures[ascending] forall(0, len(ret0)-1, func(j int) bool { return ret0[j] <= ret0[j+1] })
+//@   ensures[only-keys-of-the-map] forall(0, len(ret0), func(j int) bool { return has(m, ret0[j]) })
+//@   loop 0 modifies keys[*]
+//@   loop 0 invariant fresh(keys) && forall(0, len(keys), func(j int) bool { return has(m, keys[j]) })
